@@ -9,6 +9,11 @@ CHECKS = {
          "Bounded-exhaustive model checking of the routing order plus conformance of the real mux on enumerated and random configurations x names; a violation is a real registration outcome or lookup result (or a lookup panic) that contradicts the reference.",
          "Acceptance is judged only where the documentation is unambiguous (valid, conflict-free => accepted; invalid pattern/group, duplicate structure => rejected); otherwise the implementation's outcome is taken and routing judged on the accepted set. Handler identity observed through a marker call method.",
          "4.2 C06"),
+ "C09": ("subs", "model_checking",
+         "TLA+ ownership/subscription reference (ResSubs.tla): TLC model-checks the subscription planner (MCSubs) for every ownership configuration of the bound against Coverage/NonRedundant/ValidSubjects/Exactness, and judges the subscriptions and system.reset payloads recorded from real Serve runs on a recording connection for every configuration of the bound (TraceSubs.tla)",
+         "Model checking of the planner design plus conformance of the real service on enumerated configurations: a violation is an observed subscription list or reset payload that fails a clause of the reference.",
+         "The recording connection stands for the NATS server; NATS subject matching is the reference's NMatches; ownership entries that are not valid subjects are not judged.",
+         "4.2 C09"),
  "C17": ("pattern", "model_checking",
          "TLA+ reference grammar (ResPattern.tla): TLC model-checks the grammar's relations exhaustively over all string pairs up to the bound, and judges every recorded call of the real pattern operations (bounded-exhaustive + seeded random inputs) against the reference (TracePattern.tla)",
          "Bounded-exhaustive model checking of the token-wise grammar plus conformance of every real Pattern/validity operation result on all strings up to the bound; a violation is a real call whose result differs from the reference.",
